@@ -54,6 +54,7 @@ import (
 	"os"
 	"strconv"
 	"sync"
+	"unicode/utf8"
 
 	grafanaregexp "github.com/grafana/regexp"
 	re2regexp "github.com/wasilibs/go-re2"
@@ -137,9 +138,27 @@ func useRE2(inputLen int) bool {
 // enabling the threshold should be aware of this distinction.
 func (re *Regexp) FindAllIndex(b []byte, n int) [][]int {
 	if re.re2 != nil && useRE2(len(b)) {
-		return re.re2.FindAllIndex(b, n)
+		return dropMatchesInsideRunes(b, re.re2.FindAllIndex(b, n))
 	}
 	return re.grafana.FindAllIndex(b, n)
+}
+
+// dropMatchesInsideRunes removes matches that start on a UTF-8 continuation
+// byte. RE2 evaluates \B bytewise, so it reports an empty match between the
+// bytes of a multi-byte rune (`\B` on "kå" matches at offsets 2 and 3);
+// grafana/regexp only ever matches at rune starts.
+func dropMatchesInsideRunes(b []byte, matches [][]int) [][]int {
+	kept := matches[:0]
+	for _, m := range matches {
+		if m[0] < len(b) && !utf8.RuneStart(b[m[0]]) {
+			continue
+		}
+		kept = append(kept, m)
+	}
+	if len(kept) == 0 {
+		return nil
+	}
+	return kept
 }
 
 // String returns the source text used to compile the regular expression.
